@@ -1,4 +1,5 @@
 import SpVerif.Proofs.Robust
+import SpVerif.Proofs.ErrSets
 import SpVerif.Proofs.PusCrcAccept
 import SpVerif.Props.C02
 import SpVerif.Props.C03
@@ -768,6 +769,270 @@ theorem C10_reserved_prefix (v : Bytes) (wf : C08.WFValue v) (k : Nat) (hk : k <
   exact ⟨e, by rw [he]; rfl, hd⟩
 
 end Reserved
+
+/-! ## the exact error SET of every decoder (`C10_errors_<D>`)
+
+`Documented` (all blocks above) is stated with the shared predicate `Err.documented`, which accepts
+eight categories: the five of C10's statement — ValueError family, CRC errors,
+`UnsupportedCfdpVersion`, `TlvTypeMissmatch`, the `Uslp*` classes (`Listed`) — and three more
+(`OverflowError`, `FileNotFoundError`, `InvalidVerifParams`) that belong to C14 / C19 / C15 and that
+no decoder can raise. The theorems of this block pin every decoder of the table to the exact list of
+classes it can fail with (`ErrIn S x`: `x` fails, if at all, with a member of `S`); every such list is
+a sub-list of `Listed`, collected in `C10_errors_all_listed`.
+
+Method (`Proofs/ErrSets.lean`): the set of classes that occur in the definition of the decoder and
+of everything it calls is read off structurally (`*_raises`, no guard reasoning — it still contains
+`index` / `struct`); the owner's `Documented` theorem removes the undocumented ones
+(`ErrIn.tighten`). Decoders whose owners already have an exact error lemma use that
+(`C07_unpack_errors`, the `*_err` lemmas of `Proofs/Uslp.lean`). -/
+section ErrorSets
+open SpVerif.SpacePacket SpVerif.Parser SpVerif.PusTc SpVerif.PusTm SpVerif.Srv1 SpVerif.Cds SpVerif.CfdpHeader
+  SpVerif.CfdpFront SpVerif.Lv SpVerif.Tlv SpVerif.ByteField SpVerif.Uslp SpVerif.FileDirective SpVerif.Factory
+  SpVerif.MsgToUser
+
+/-- the error classes C10's statement lists: ValueError and its subclasses, the CRC errors, the
+    unsupported-version, TLV-type-mismatch and USLP errors -/
+def Listed : List Err := [.value, .crc, .cfdpVersion, .tlvType, .uslp]
+
+/-- closes `∀ e, e ∈ S → e.documented = true → e ∈ T` for literal lists -/
+local macro "err_tight" : tactic => `(tactic| (intro e; cases e <;> simp [Err.documented]))
+
+/-- every listed class is a documented one; the three documented classes that are NOT in the
+    statement's list are exactly `overflow`, `fileNotFound`, `verifParams` -/
+theorem C10_listed (e : Err) :
+    (e ∈ Listed → e.documented = true) ∧
+    (e.documented = true → e ∉ Listed → e = .overflow ∨ e = .fileNotFound ∨ e = .verifParams) := by
+  cases e <;> simp [Listed, Err.documented]
+
+/-- a decoder whose error set is inside the list fails only with documented classes — and with none
+    of `OverflowError`, `FileNotFoundError`, `InvalidVerifParams` -/
+theorem C10_errors_sound {α : Type} {S : List Err} {x : Py α} (h : ErrIn S x) (hs : ∀ e, e ∈ S → e ∈ Listed) :
+    Documented x ∧ ∀ e, x = .error e → e ≠ .overflow ∧ e ≠ .fileNotFound ∧ e ≠ .verifParams := by
+  refine ⟨fun e he => (C10_listed e).1 (hs e (h e he)), fun e he => ?_⟩
+  have := hs e (h e he)
+  cases e <;> simp [Listed] at this <;> simp
+
+-- CCSDS
+theorem C10_errors_sph (d : Bytes) : ErrIn [.value] (Sph.unpack d) :=
+  (Sph.unpack_raises d).tighten (C10_sph d) (by err_tight)
+theorem C10_errors_apid (d : Bytes) : ErrIn [.value] (apidFromRaw d) :=
+  (apidFromRaw_raises d).tighten (C10_apid d) (by err_tight)
+/-- the stream parser never fails at all -/
+theorem C10_errors_parser (ids : List Nat) (q : List Bytes) : ErrIn [] (parseCall ids q) := by
+  rw [(C10_parser ids q).1]; exact ErrIn.ok _
+-- PUS
+theorem C10_errors_tc (d : Bytes) : ErrIn [.value, .crc] (Tc.unpack d) :=
+  (Tc.unpack_raises d).tighten (C10_tc d) (by err_tight)
+theorem C10_errors_tc_sec (d : Bytes) : ErrIn [.value] (TcSec.unpack d) :=
+  (TcSec.unpack_raises d).tighten (C10_tc_sec d) (by err_tight)
+theorem C10_errors_tm_sec (d : Bytes) (n : Nat) : ErrIn [.value] (TmSec.unpack d n) :=
+  (TmSec.unpack_raises d n).tighten (C10_tm_sec d n) (by err_tight)
+theorem C10_errors_tm (d : Bytes) (n : Nat) : ErrIn [.value, .crc] (Tm.unpack d n) :=
+  (Tm.unpack_raises d n).tighten (C10_tm d n) (by err_tight)
+theorem C10_errors_srv17 (d : Bytes) (n : Nat) : ErrIn [.value, .crc] (srv17Unpack d n) := C10_errors_tm d n
+theorem C10_errors_tm_service (d : Bytes) : ErrIn [.value] (serviceFromBytes d) :=
+  (serviceFromBytes_raises d).tighten (C10_tm_service d) (by err_tight)
+theorem C10_errors_reqid (d : Bytes) : ErrIn [.value] (ReqId.unpack d) :=
+  (ReqId.unpack_raises d).tighten (C10_reqid d) (by err_tight)
+theorem C10_errors_pfe (d : Bytes) (pfc : Nat) : ErrIn [.value] (Pfe.unpack d pfc) :=
+  (Pfe.unpack_raises d pfc).tighten (C10_pfe d pfc) (by err_tight)
+theorem C10_errors_srv1 (d : Bytes) (n sb eb : Nat) : ErrIn [.value, .crc] (S1Tm.unpack d n sb eb) :=
+  (S1Tm.unpack_raises d n sb eb).tighten (C10_srv1 d n sb eb) (by err_tight)
+theorem C10_errors_srv1_from_tm (tm : Tm) (sb eb : Nat) : ErrIn [.value] (S1Tm.fromTm tm sb eb) :=
+  (unpackRaw_raises tm sb eb).tighten (C10_srv1_from_tm tm sb eb) (by err_tight)
+/-- decode, then feed the tracker: the tracker adds no class (`C10_verificator`: it never raises on
+    a decoded report) -/
+theorem C10_errors_srv1_verificator (d : Bytes) (n sb eb : Nat) (t : Verificator.Tracker) :
+    ErrIn [.value, .crc] (S1Tm.unpack d n sb eb) ∧
+    ∀ s, S1Tm.unpack d n sb eb = .ok s → ∀ e,
+      (Verificator.step t (.addTm s.tcReqId.asU32 s.tm.sec.subservice (s.stepId.map Pfe.val))).2 ≠ .raised e :=
+  ⟨C10_errors_srv1 d n sb eb, fun s hs e => C10_verificator d n sb eb s hs t e⟩
+theorem C10_errors_cds (d : Bytes) : ErrIn [.value] (unpackFromRaw d) :=
+  (Cds.unpackFromRaw_raises d).tighten (C10_cds d) (by err_tight)
+-- CFDP header and fronts
+theorem C10_errors_pdu_header (d : Bytes) : ErrIn [.value, .cfdpVersion] (PduHeader.unpack d) :=
+  (PduHeader.unpack_raises d).tighten (C10_pdu_header d) (by err_tight)
+theorem C10_errors_header_len_from_raw (d : Bytes) : ErrIn [.value] (headerLenFromRaw d) :=
+  (headerLenFromRaw_raises d).tighten (C10_header_len_from_raw d) (by err_tight)
+theorem C10_errors_verify (h : PduHeader) (d : Bytes) : ErrIn [.value, .crc] (h.verifyLengthAndChecksum d) :=
+  (PduHeader.verify_raises h d).tighten (C10_verify h d) (by err_tight)
+theorem C10_errors_pdu_front (d : Bytes) : ErrIn [.value, .cfdpVersion, .crc] (pduFront d) :=
+  (pduFront_raises d).tighten (C10_pdu_front d) (by err_tight)
+theorem C10_errors_directive_front (d : Bytes) : ErrIn [.value, .cfdpVersion, .crc] (directiveFront d) :=
+  (directiveFront_raises d).tighten (C10_directive_front d) (by err_tight)
+-- LV / TLV
+theorem C10_errors_lv (d : Bytes) : ErrIn [.value] (CfdpLv.unpack d) :=
+  (CfdpLv.unpack_raises d).tighten (C10_lv d) (by err_tight)
+theorem C10_errors_tlv (d : Bytes) : ErrIn [.value] (CfdpTlv.unpack d) :=
+  (CfdpTlv.unpack_raises d).tighten (C10_tlv d) (by err_tight)
+/-- the three plain wrappers' `from_tlv` can only refuse the type; fault handler and the two
+    filestore classes also refuse malformed values -/
+theorem C10_errors_from_tlv (t : CfdpTlv) :
+    ErrIn [.tlvType] (EntityIdTlv.fromTlv t) ∧ ErrIn [.tlvType] (FlowLabelTlv.fromTlv t) ∧
+    ErrIn [.tlvType] (MessageToUserTlv.fromTlv t) ∧ ErrIn [.value, .tlvType] (FaultHandlerOverrideTlv.fromTlv t) ∧
+    ErrIn [.value, .tlvType] (FileStoreRequestTlv.fromTlv t) ∧
+    ErrIn [.value, .tlvType] (FileStoreResponseTlv.fromTlv t) :=
+  ⟨EntityIdTlv.fromTlv_raises t, FlowLabelTlv.fromTlv_raises t, MessageToUserTlv.fromTlv_raises t,
+   (FaultHandlerOverrideTlv.fromTlv_raises t).tighten (C10_fault_handler_from_tlv t) (by err_tight),
+   (FileStoreRequestTlv.fromTlv_raises t).tighten (C10_fs_request_from_tlv t) (by err_tight),
+   (FileStoreResponseTlv.fromTlv_raises t).tighten (C10_fs_response_from_tlv t) (by err_tight)⟩
+theorem C10_errors_concrete_tlv (d : Bytes) :
+    ErrIn [.value, .tlvType] (EntityIdTlv.unpack d) ∧ ErrIn [.value, .tlvType] (FlowLabelTlv.unpack d) ∧
+    ErrIn [.value, .tlvType] (MessageToUserTlv.unpack d) ∧ ErrIn [.value, .tlvType] (FaultHandlerOverrideTlv.unpack d) ∧
+    ErrIn [.value, .tlvType] (FileStoreRequestTlv.unpack d) ∧
+    ErrIn [.value, .tlvType] (FileStoreResponseTlv.unpack d) :=
+  ⟨(EntityIdTlv.unpack_raises d).tighten (C10_entity_id d) (by err_tight),
+   (FlowLabelTlv.unpack_raises d).tighten (C10_flow_label d) (by err_tight),
+   (MessageToUserTlv.unpack_raises d).tighten (C10_msg_to_user d) (by err_tight),
+   (FaultHandlerOverrideTlv.unpack_raises d).tighten (C10_fault_handler d) (by err_tight),
+   (FileStoreRequestTlv.unpack_raises d).tighten (C10_fs_request d) (by err_tight),
+   (FileStoreResponseTlv.unpack_raises d).tighten (C10_fs_response d) (by err_tight)⟩
+/-- a holder of a decoded generic TLV: the conversion IS `from_tlv` -/
+theorem C10_errors_holder (t : CfdpTlv) :
+    ErrIn [.tlvType] (holderToEntityId (.generic t)) ∧ ErrIn [.tlvType] (holderToFlowLabel (.generic t)) ∧
+    ErrIn [.tlvType] (holderToMsgToUser (.generic t)) ∧ ErrIn [.value, .tlvType] (holderToFaultHandler (.generic t)) ∧
+    ErrIn [.value, .tlvType] (holderToFsRequest (.generic t)) ∧
+    ErrIn [.value, .tlvType] (holderToFsResponse (.generic t)) := C10_errors_from_tlv t
+-- byte fields
+theorem C10_errors_bf_from_bytes (d : Bytes) : ErrIn [.value] (fromBytes d) :=
+  (fromBytes_raises d).tighten (C10_bf_from_bytes d) (by err_tight)
+theorem C10_errors_bf_gen (n : Int) (d : Bytes) : ErrIn [.value] (genFromBytes n d) :=
+  (genFromBytes_raises n d).tighten (C10_bf_gen n d) (by err_tight)
+theorem C10_errors_bf_from_un (d : Bytes) :
+    ErrIn [.value] (fromU8Bytes d) ∧ ErrIn [.value] (fromU16Bytes d) ∧ ErrIn [.value] (fromU32Bytes d) ∧
+    ErrIn [.value] (fromU64Bytes d) :=
+  ⟨C10_errors_bf_gen 1 d, C10_errors_bf_gen 2 d, C10_errors_bf_gen 4 d, C10_errors_bf_gen 8 d⟩
+-- USLP (exact lemmas of `Proofs/Uslp.lean`; all seven `Uslp*` classes are the category `uslp`)
+theorem C10_errors_uslp_hdr (d : Bytes) (ver : Nat) : ErrIn [.uslp] (PrimaryHeader.unpack d ver).toPy :=
+  errIn_toPy fun e he => by rcases PrimaryHeader.unpack_err d ver e he with rfl | rfl | rfl <;> simp [UErr.toErr]
+theorem C10_errors_uslp_thdr (d : Bytes) (ver : Nat) : ErrIn [.uslp] (TruncatedHeader.unpack d ver).toPy :=
+  errIn_toPy fun e he => by rcases TruncatedHeader.unpack_err d ver e he with rfl | rfl | rfl <;> simp [UErr.toErr]
+theorem C10_errors_uslp_hdr_type (d : Bytes) : ErrIn [.value] (headerIsTruncated d).toPy := by
+  by_cases h : d.length < 4
+  · rw [headerIsTruncated_short d h]; exact ErrIn.err (by simp [UErr.toErr])
+  · rw [headerIsTruncated_eq d (by omega)]; exact ErrIn.ok _
+theorem C10_errors_tfdf (d : Bytes) (tr : Bool) (n : Nat) (ft : Option FrameType) :
+    ErrIn [.uslp] (Tfdf.unpack d tr n ft).toPy :=
+  errIn_toPy fun e he => by rcases Tfdf.unpack_err d tr n ft e he with rfl | rfl <;> simp [UErr.toErr]
+theorem C10_errors_frame (d : Bytes) (ft : FrameType) (p : FrameProps) :
+    ErrIn [.value, .uslp] (Frame.unpack d ft p).toPy :=
+  errIn_toPy fun e he => by
+    have := Frame.unpack_err d ft p e he
+    cases e with
+    | uslp k => simp [UErr.toErr]
+    | py e => cases e <;> simp [UErr.isUslpOrValue] at this; simp [UErr.toErr]
+-- CFDP PDUs, factory, reserved messages
+theorem C10_errors_directive_base (d : Bytes) : ErrIn [.value, .cfdpVersion] (FileDirective.unpack d) :=
+  (FileDirective.unpack_raises d).tighten (C10_directive_base d) (by err_tight)
+theorem C10_errors_ack (d : Bytes) : ErrIn [.value, .cfdpVersion, .crc] (Ack.Ack.unpack d) :=
+  (Ack.unpack_raises d).tighten (C10_ack d) (by err_tight)
+theorem C10_errors_prompt (d : Bytes) : ErrIn [.value, .cfdpVersion, .crc] (Prompt.Prompt.unpack d) :=
+  (Prompt.unpack_raises d).tighten (C10_prompt d) (by err_tight)
+theorem C10_errors_keep_alive (d : Bytes) : ErrIn [.value, .cfdpVersion, .crc] (KeepAlive.KeepAlive.unpack d) :=
+  (KeepAlive.unpack_raises d).tighten (C10_keep_alive d) (by err_tight)
+theorem C10_errors_nak (d : Bytes) : ErrIn [.value, .cfdpVersion, .crc] (Nak.Nak.unpack d) :=
+  (Nak.unpack_raises d).tighten (C10_nak d) (by err_tight)
+/-- EOF and Finished decode TLVs through the typed classes: `TlvTypeMissmatch` can occur -/
+theorem C10_errors_eof (d : Bytes) : ErrIn [.value, .cfdpVersion, .crc, .tlvType] (Eof.Eof.unpack d) :=
+  (Eof.unpack_raises d).tighten (C10_eof d) (by err_tight)
+theorem C10_errors_finished (d : Bytes) :
+    ErrIn [.value, .cfdpVersion, .crc, .tlvType] (Finished.Finished.unpack d) :=
+  (Finished.unpack_raises d).tighten (C10_finished d) (by err_tight)
+/-- Metadata decodes its options as generic TLVs: no `TlvTypeMissmatch` -/
+theorem C10_errors_metadata (d : Bytes) : ErrIn [.value, .cfdpVersion, .crc] (Metadata.Metadata.unpack d) :=
+  (Metadata.unpack_raises d).tighten (C10_metadata d) (by err_tight)
+theorem C10_errors_file_data (d : Bytes) : ErrIn [.value, .cfdpVersion, .crc] (FileData.Pdu.unpack d) :=
+  FileData.unpack_raises d
+theorem C10_errors_inspectors (d : Bytes) :
+    ErrIn [.value] (pduType d) ∧ ErrIn [.value] (isFileDirective d) ∧ ErrIn [.value] (pduDirectiveType d) :=
+  ⟨(pduType_raises d).tighten (C10_pdu_type d) (by err_tight),
+   (isFileDirective_raises d).tighten (C10_is_file_directive d) (by err_tight),
+   (pduDirectiveType_raises d).tighten (C10_pdu_directive_type d) (by err_tight)⟩
+theorem C10_errors_factory (d : Bytes) :
+    ErrIn [.value, .cfdpVersion, .crc, .tlvType] (fromRaw d) ∧
+    ErrIn [.value, .cfdpVersion, .crc, .tlvType] (fromRawToHolder d) :=
+  ⟨(fromRaw_raises d).tighten (C10_factory d) (by err_tight),
+   (fromRaw_raises d).tighten (C10_factory_holder d) (by err_tight)⟩
+/-- reserved CFDP messages: decode + conversion, and every getter on whatever the conversion
+    returned, fail with `ValueError` only (the decode step also with `TlvTypeMissmatch`) -/
+theorem C10_errors_reserved (d : Bytes) :
+    ErrIn [.value, .tlvType] (MessageToUserTlv.unpack d >>= toReservedMsgTlv) ∧
+    ∀ m r, MessageToUserTlv.unpack d = .ok m → toReservedMsgTlv m = .ok (some r) →
+      ErrIn [.value] r.getProxyPutRequestParams ∧ ErrIn [.value] r.getProxyPutResponseParams ∧
+      ErrIn [.value] r.getProxyClosureRequested ∧ ErrIn [.value] r.getProxyTransmissionMode ∧
+      ErrIn [.value] r.getOriginatingTransactionId ∧ ErrIn [.value] r.getDirListingRequestParams ∧
+      ErrIn [.value] r.getDirListingResponseParams ∧ ErrIn [.value] r.getDirListingOptions := by
+  refine ⟨?_, fun m r hm hr => ?_⟩
+  · have hl : ErrIn [.value, .tlvType, .index] (MessageToUserTlv.unpack d >>= toReservedMsgTlv) :=
+      ErrIn.bind (MessageToUserTlv.unpack_raises d) (fun m => (toReservedMsgTlv_raises m).mono (by err_sub))
+    exact hl.tighten (C10_reserved d).1 (by err_tight)
+  · obtain ⟨g1, g2, g3, g4, g5, g6, g7, g8, _⟩ := (C10_reserved d).2 m r hm hr
+    exact ⟨(ReservedCfdpMessage.getProxyPutRequestParams_raises r).tighten g1 (by err_tight),
+      (ReservedCfdpMessage.getProxyPutResponseParams_raises r).tighten g2 (by err_tight),
+      (ReservedCfdpMessage.getProxyClosureRequested_raises r).tighten g3 (by err_tight),
+      (ReservedCfdpMessage.getProxyTransmissionMode_raises r).tighten g4 (by err_tight),
+      (ReservedCfdpMessage.getOriginatingTransactionId_raises r).tighten g5 (by err_tight),
+      (ReservedCfdpMessage.getDirListingRequestParams_raises r).tighten g6 (by err_tight),
+      (ReservedCfdpMessage.getDirListingResponseParams_raises r).tighten g7 (by err_tight),
+      (ReservedCfdpMessage.getDirListingOptions_raises r).tighten g8 (by err_tight)⟩
+
+/-- **"documented" pinned to the statement's list**: every decoder of the table (one conjunct per
+    line of `Ops/Robust.decoders`; the typed-TLV, byte-field, inspector and factory groups are the
+    grouped theorems above) fails, on ANY octet string and configuration, only with a member of
+    `Listed` — never with `OverflowError`, `FileNotFoundError` or `InvalidVerifParams`, which the
+    shared predicate `Err.documented` would also accept -/
+theorem C10_errors_all_listed (d : Bytes) (n sb eb pfc ver : Nat) (bw : Int) (ids : List Nat) (tr : Bool)
+    (oft : Option FrameType) (ft : FrameType) (p : FrameProps) :
+    ErrIn Listed (Sph.unpack d) ∧ ErrIn Listed (apidFromRaw d) ∧ ErrIn Listed (parseCall ids [d]) ∧
+    ErrIn Listed (Tc.unpack d) ∧ ErrIn Listed (TcSec.unpack d) ∧ ErrIn Listed (TmSec.unpack d n) ∧
+    ErrIn Listed (Tm.unpack d n) ∧ ErrIn Listed (srv17Unpack d n) ∧ ErrIn Listed (serviceFromBytes d) ∧
+    ErrIn Listed (S1Tm.unpack d n sb eb) ∧ ErrIn Listed (Tm.unpack d n >>= fun tm => S1Tm.fromTm tm sb eb) ∧
+    ErrIn Listed (ReqId.unpack d) ∧ ErrIn Listed (Pfe.unpack d pfc) ∧ ErrIn Listed (unpackFromRaw d) ∧
+    ErrIn Listed (PduHeader.unpack d) ∧ ErrIn Listed (headerLenFromRaw d) ∧ ErrIn Listed (pduFront d) ∧
+    ErrIn Listed (directiveFront d) ∧ ErrIn Listed (FileDirective.unpack d) ∧
+    ErrIn Listed (Ack.Ack.unpack d) ∧ ErrIn Listed (Prompt.Prompt.unpack d) ∧
+    ErrIn Listed (KeepAlive.KeepAlive.unpack d) ∧ ErrIn Listed (Nak.Nak.unpack d) ∧ ErrIn Listed (Eof.Eof.unpack d) ∧
+    ErrIn Listed (Finished.Finished.unpack d) ∧ ErrIn Listed (Metadata.Metadata.unpack d) ∧
+    ErrIn Listed (FileData.Pdu.unpack d) ∧ ErrIn Listed (pduType d) ∧ ErrIn Listed (isFileDirective d) ∧
+    ErrIn Listed (pduDirectiveType d) ∧ ErrIn Listed (fromRaw d) ∧ ErrIn Listed (fromRawToHolder d) ∧
+    ErrIn Listed (MessageToUserTlv.unpack d >>= toReservedMsgTlv) ∧
+    ErrIn Listed (CfdpLv.unpack d) ∧ ErrIn Listed (CfdpTlv.unpack d) ∧
+    ErrIn Listed (EntityIdTlv.unpack d) ∧ ErrIn Listed (FlowLabelTlv.unpack d) ∧ ErrIn Listed (MessageToUserTlv.unpack d) ∧
+    ErrIn Listed (FaultHandlerOverrideTlv.unpack d) ∧ ErrIn Listed (FileStoreRequestTlv.unpack d) ∧
+    ErrIn Listed (FileStoreResponseTlv.unpack d) ∧
+    ErrIn Listed (fromBytes d) ∧ ErrIn Listed (genFromBytes bw d) ∧
+    ErrIn Listed (PrimaryHeader.unpack d ver).toPy ∧ ErrIn Listed (TruncatedHeader.unpack d ver).toPy ∧
+    ErrIn Listed (headerIsTruncated d).toPy ∧ ErrIn Listed (Tfdf.unpack d tr n oft).toPy ∧
+    ErrIn Listed (Frame.unpack d ft p).toPy := by
+  obtain ⟨t1, t2, t3, t4, t5, t6⟩ := C10_errors_concrete_tlv d
+  obtain ⟨i1, i2, i3⟩ := C10_errors_inspectors d
+  obtain ⟨f1, f2⟩ := C10_errors_factory d
+  have key : ∀ {α : Type} {S : List Err} {x : Py α}, ErrIn S x → (∀ e, e ∈ S → e ∈ Listed) → ErrIn Listed x :=
+    fun h hs => h.mono hs
+  refine ⟨key (C10_errors_sph d) ?_, key (C10_errors_apid d) ?_, key (C10_errors_parser ids [d]) ?_,
+    key (C10_errors_tc d) ?_, key (C10_errors_tc_sec d) ?_, key (C10_errors_tm_sec d n) ?_,
+    key (C10_errors_tm d n) ?_, key (C10_errors_srv17 d n) ?_, key (C10_errors_tm_service d) ?_,
+    key (C10_errors_srv1 d n sb eb) ?_,
+    key (ErrIn.bind (C10_errors_tm d n) fun tm => (C10_errors_srv1_from_tm tm sb eb).mono (by err_sub)) ?_,
+    key (C10_errors_reqid d) ?_, key (C10_errors_pfe d pfc) ?_, key (C10_errors_cds d) ?_,
+    key (C10_errors_pdu_header d) ?_, key (C10_errors_header_len_from_raw d) ?_, key (C10_errors_pdu_front d) ?_,
+    key (C10_errors_directive_front d) ?_, key (C10_errors_directive_base d) ?_,
+    key (C10_errors_ack d) ?_, key (C10_errors_prompt d) ?_, key (C10_errors_keep_alive d) ?_,
+    key (C10_errors_nak d) ?_, key (C10_errors_eof d) ?_, key (C10_errors_finished d) ?_,
+    key (C10_errors_metadata d) ?_, key (C10_errors_file_data d) ?_, key i1 ?_, key i2 ?_, key i3 ?_,
+    key f1 ?_, key f2 ?_, key (C10_errors_reserved d).1 ?_,
+    key (C10_errors_lv d) ?_, key (C10_errors_tlv d) ?_, key t1 ?_, key t2 ?_, key t3 ?_, key t4 ?_, key t5 ?_,
+    key t6 ?_, key (C10_errors_bf_from_bytes d) ?_, key (C10_errors_bf_gen bw d) ?_,
+    key (C10_errors_uslp_hdr d ver) ?_, key (C10_errors_uslp_thdr d ver) ?_, key (C10_errors_uslp_hdr_type d) ?_,
+    key (C10_errors_tfdf d tr n oft) ?_, key (C10_errors_frame d ft p) ?_⟩ <;>
+    (intro e; cases e <;> simp [Listed])
+
+-- the sets are tight where it matters: each listed class is really produced by some decoder
+example : Tc.unpack [] = .error .value ∧ PduHeader.unpack [0x00, 0, 0, 0x11, 1, 2, 3] = .error .cfdpVersion ∧
+    EntityIdTlv.unpack [5, 1, 7] = .error .tlvType ∧
+    (PrimaryHeader.unpack [0xC0, 0, 0, 0, 0, 0]).toPy = .error .uslp := by decide
+
+end ErrorSets
 
 /-! ## non-vacuity: concrete members of the domains the prefix clauses quantify over, and concrete verdicts -/
 section Examples
